@@ -36,6 +36,8 @@ KINDS = {
     83: 'sdk.ValidateDenom differs from the model\'s valid_denom',
     84: 'a client / consensus state value reports (ClientType()) another client type than that of its own light client package',
     91: 'an operation of a corpus history (the witness of a repaired defect) is no longer executed by the real code',
+    84: 'a client / consensus state value reports (ClientType()) another client type than that of its own light client package',
+    91: 'an operation of a corpus history (the witness of a repaired defect) is no longer executed by the real code',
     11: 'ExportGenesis panicked',
     12: 'the exported xibc genesis is rejected by the module\'s own validation',
     13: 'the exported aggregate genesis is rejected by the module\'s own validation',
@@ -430,6 +432,22 @@ def check(run):
         reported += 1
         if reported >= 3:
             break
+
+    # corpus histories are witnesses: each of their operations must be executed by the real code
+    corpus_bad = []
+    for r in results:
+        if r['spec'].get('corpus') and not r.get('fatal'):
+            for i, (o, ob) in enumerate(zip(r['spec'].get('ops') or [], r.get('ops') or [])):
+                if ob['class'] != 0:
+                    corpus_bad.append(dict(case=r['spec']['id'], tag=r['spec'].get('tag'), op_index=i, op=o, outcome=ob))
+    run.coverage['corpus_ops_not_executed'] = len(corpus_bad)
+    if not run.violations and corpus_bad and not mm:
+        b = corpus_bad[0]
+        spec = [r['spec'] for r in results if r['spec']['id'] == b['case']][0]
+        run.violation(dict(kind='correspondence', codes=[91], what=KINDS[91], spec=spec, failing_op=b,
+                           explanation='the history that witnesses a repaired defect can no longer be executed on the real code, so the '
+                                       'check no longer exercises the state it was recorded for',
+                           broken='corpus of harness/cmd/c13/gen.go'), name='replay_corpus_c%d.json' % b['case'], no_input=True)
 
     if not run.violations and mm:
         # model and code disagree although the property's monitors are silent: look harder for a failing input
